@@ -341,8 +341,10 @@ class Interp:
                 return self.module_value(imp[1])
             modname, attr = imp[1], imp[2]
             full = f"{modname}.{attr}"
-            if full in self.p.modules or full.startswith(BACKEND + "."):
+            if modname == BACKEND or (full in self.p.modules and not modname.startswith(BACKEND + ".")):
                 return self.module_value(full)
+            if modname.startswith(BACKEND + "."):
+                return self.module_attr(self.module_value(modname), attr)
             if modname in self.p.modules and not modname.startswith(BACKEND):
                 return self.resolve_global(self.p.modules[modname], attr, seen)
             return self.module_attr(self.module_value(modname), attr)
@@ -1636,10 +1638,23 @@ def _as_termlike(v):
     return v
 
 
+_ARRAY_OPS = ("np.", "linalg.", "tree.ravel", "random.")
+_ARITH = {"add", "sub", "mul", "div", "pow", "neg", "matmul", "at_set"}
+
+
+def is_array_term(t) -> bool:
+    """Is this abstract value certainly a single array (a pytree leaf)?"""
+    if not isinstance(t, T.Term):
+        return False
+    if t.meta.get("array") is True:
+        return True
+    return t.op in _ARITH or (t.op.startswith(_ARRAY_OPS) and t.op not in ("tree.ravel_pair",))
+
+
 @prim("tree.tree_map")
 def _p_tree_map(it, args, kwargs, site):
     f, *trees = args
-    if all(_is_pytree_container(t) or _is_static(t) for t in trees[:1]):
+    if all(_is_pytree_container(t) or _is_static(t) or is_array_term(t) for t in trees[:1]):
         return tree_map_struct(it, f, trees, site)
     return T.mk("tree.tree_map", (lam_key(it, f, len(trees), site, trees), *trees), origin=site)
 
@@ -1735,6 +1750,20 @@ def _tree_concat(it, parts, site):
     return rebuild(out)
 
 
+def _keep_meta(leaf):
+    if isinstance(leaf, T.Term):
+        return {k: x for k, x in leaf.meta.items() if k in ("cls", "array", "length")}
+    return None
+
+
+@prim("np.stack")
+def _p_stack(it, args, kwargs, site):
+    x = args[0]
+    if isinstance(x, (list, tuple)) and kwargs.get("axis", 0) == 0:
+        return T.mk("np.stack", tuple(args), kwargs, origin=site, meta={"length": len(x)})
+    return _MISSING
+
+
 def symbolise(it, v, prefix, numbers=True):
     """A value shaped like ``v`` whose array leaves are fresh atoms ``prefix.path``."""
     if isinstance(v, T.Term):
@@ -1812,7 +1841,7 @@ def _p_while(it, args, kwargs, site):
         body_out = it.call(body_f, [state], {}, site)
     finally:
         it.path_conds.pop()
-    final = map_leaves(state, lambda leaf, path: T.mk("while_final", (eid, T.atom_name(leaf) if isinstance(leaf, T.Term) else path), origin=site))
+    final = map_leaves(state, lambda leaf, path: T.mk("while_final", (eid, T.atom_name(leaf) if isinstance(leaf, T.Term) else path), origin=site, meta=_keep_meta(leaf)))
     ev = {"kind": "while", "id": eid, "site": site, "init": init, "state": state, "cond": cond_out, "body": body_out, "final": final, "fn": it.call_stack[-1] if it.call_stack else "<top>", "cond_fn": cond_f, "body_fn": body_f}
     it.events.append(ev)
     return final
@@ -1832,7 +1861,7 @@ def _p_scan(it, args, kwargs, site):
     if not isinstance(out, (tuple, list)) or len(out) != 2:
         raise AnalysisError(f"scan body at {site} does not return a pair")
     new_carry, y = out
-    final = map_leaves(carry, lambda leaf, path: T.mk("scan_final", (eid, T.atom_name(leaf) if isinstance(leaf, T.Term) else path), origin=site))
+    final = map_leaves(carry, lambda leaf, path: T.mk("scan_final", (eid, T.atom_name(leaf) if isinstance(leaf, T.Term) else path), origin=site, meta=_keep_meta(leaf)))
     ys = map_leaves(y, lambda leaf, path: T.mk("scan_ys", (eid, leaf), origin=site))
     ev = {"kind": "scan", "id": eid, "site": site, "init": init, "xs": xs, "carry": carry, "x": x, "new_carry": new_carry, "y": y, "final": final, "ys": ys, "reverse": reverse, "length": kwargs.get("length"), "fn": it.call_stack[-1] if it.call_stack else "<top>", "step_fn": step}
     it.events.append(ev)
